@@ -589,13 +589,6 @@ impl Case {
 // the sink
 // ---------------------------------------------------------------------------------------------
 
-#[derive(Clone, Copy, Debug, PartialEq, Eq)]
-enum Fr {
-    Len,
-    Type(u32),
-    Data,
-    Crc,
-}
 
 pub struct SinkState {
     pub data: Vec<u8>,
@@ -614,9 +607,11 @@ pub struct SinkState {
     pub iend_attempts: usize,
     /// set by the interpreter while a raw-chunk operation with empty data runs
     pub in_empty_chunk_op: bool,
-    fr: Fr,
     first: bool,
-    remainder: bool,
+    /// accepted length + type bytes of the chunk that is being written
+    hdr: Vec<u8>,
+    /// accepted data + CRC bytes of the current chunk still to come
+    left: u64,
 }
 
 #[derive(Clone)]
@@ -636,9 +631,9 @@ impl SharedSink {
             iend_type_writes: 0,
             iend_attempts: 0,
             in_empty_chunk_op: false,
-            fr: Fr::Len,
             first: true,
-            remainder: false,
+            hdr: vec![],
+            left: 0,
         })))
     }
     pub fn len(&self) -> usize {
@@ -679,31 +674,43 @@ impl Write for SharedSink {
             }
         }
         let complete = outcome == Ok(buf.len());
-        // framing of the attempted chunk writes (`encoder::write_chunk`: length, type, data, CRC)
-        if s.remainder {
-            s.remainder = false;
-        } else {
-            let was_first = s.first;
-            s.first = false;
-            if was_first && buf == &SIG[..] {
-                s.fr = Fr::Len;
-            } else {
-                match s.fr {
-                    Fr::Len => {
-                        let len = if buf.len() == 4 { u32::from_be_bytes([buf[0], buf[1], buf[2], buf[3]]) } else { u32::MAX };
-                        if len == 0 && !complete && !s.in_empty_chunk_op {
-                            s.iend_attempts += 1;
-                        }
-                        s.fr = Fr::Type(len);
+        // framing of the chunk stream, by BYTES (not by write calls: how many `write` calls the encoder uses for a chunk is not an
+        // observable of any property): `hdr` collects the accepted length and type bytes of the current chunk, `left` counts its
+        // accepted data + CRC bytes still to come.  An IEND emission is ATTEMPTED when, at the start of a chunk, a length field of 0 is
+        // offered and cut by a failure (only IEND and explicitly requested empty chunks have length 0), or when the type IEND is
+        // offered behind an accepted (or, in the same call, offered) zero length.
+        {
+            let mut off = 0usize;
+            if s.first {
+                s.first = false;
+                if buf.len() >= 8 && buf[..8] == SIG[..] {
+                    off = 8;
+                }
+            }
+            let at_start = s.hdr.is_empty() && s.left == 0;
+            let rest = &buf[off..];
+            if at_start && rest.len() >= 4 && rest[..4] == [0, 0, 0, 0] {
+                if rest.len() >= 8 {
+                    if &rest[4..8] == b"IEND" {
+                        s.iend_attempts += 1;
                     }
-                    Fr::Type(len) => {
-                        if buf == b"IEND" {
-                            s.iend_attempts += 1;
-                        }
-                        s.fr = if len > 0 { Fr::Data } else { Fr::Crc };
+                } else if !complete && !s.in_empty_chunk_op {
+                    s.iend_attempts += 1;
+                }
+            } else if s.hdr.len() == 4 && s.hdr[..] == [0, 0, 0, 0] && rest.len() >= 4 && &rest[..4] == b"IEND" {
+                s.iend_attempts += 1;
+            }
+            // advance over the ACCEPTED bytes
+            let accepted = match outcome { Ok(n) => n, Err(()) => 0 };
+            for &b in &buf[off.min(accepted)..accepted] {
+                if s.left > 0 {
+                    s.left -= 1;
+                } else {
+                    s.hdr.push(b);
+                    if s.hdr.len() == 8 {
+                        s.left = u32::from_be_bytes([s.hdr[0], s.hdr[1], s.hdr[2], s.hdr[3]]) as u64 + 4;
+                        s.hdr.clear();
                     }
-                    Fr::Data => s.fr = Fr::Crc,
-                    Fr::Crc => s.fr = Fr::Len,
                 }
             }
         }
@@ -714,16 +721,13 @@ impl Write for SharedSink {
             Err(()) => {
                 s.errors += 1;
                 s.write_errors += 1;
-                s.fr = Fr::Len;
+                // the encoder starts over with a new chunk after a failed write
+                s.hdr.clear();
+                s.left = 0;
                 Err(io::Error::new(io::ErrorKind::Other, "injected"))
             }
             Ok(n) => {
                 s.data.extend_from_slice(&buf[..n]);
-                if n < buf.len() {
-                    // write_all comes back with the rest, which then fails
-                    s.remainder = true;
-                    s.fr = Fr::Len;
-                }
                 Ok(n)
             }
         }
